@@ -78,9 +78,35 @@ Definition ggm_expand_re (M : Matc) : list T :=
 Definition liouville_closed (U : Matc) (basis : list Matc) : list (list T) :=
   map ggm_expand_re (conjugated_basis U basis).
 
-(* the path switch `basis.btype == 'GGM' and basis.d > 12`; [is_ggm] is the btype label *)
+(* np.finfo(complex).eps and Basis._atol = eps * d^3 (Basis.__array_finalize__) *)
+Definition eps_complex : T := odya Op 1 (-52).
+Definition basis_atol : T := omul Op eps_complex (omul Op (ofnat d) (omul Op (ofnat d) (ofnat d))).
+Definition half : T := odya Op 1 (-1).
+
+(* (xs <= tol).all() as 1 / 0 *)
+Definition le_flag (tol : T) (xs : list T) : T :=
+  fold_right (fun x acc => oite Op (ogt Op x tol) (o0 Op) acc) (o1 Op) xs.
+(* `basis == Basis.ggm(d)` (Basis.__eq__ after the shape test): np.allclose(basis, ggm, atol=basis._atol, rtol=0),
+   i.e. |basis[k][i][j] - ggm[k][i][j]| <= atol for all entries *)
+Definition basis_devs (basis : list Matc) : list T :=
+  concat (build (d * d) (fun k => concat (build d (fun i => build d (fun j =>
+    osqrt Op (cabs2 Op (csub Op (mget Op (nthm basis k) i j) (mget Op (nthm ggm_basis k) i j)))))))).
+Definition basis_is_ggm_flag (basis : list Matc) : T := le_flag basis_atol (basis_devs basis).
+
+(* the path switch
+     basis.btype == 'GGM' and basis.d > 12 and basis.shape[0] == basis.d**2 and basis == Basis.ggm(basis.d)
+   [is_ggm] is the btype label; the comparison with the Gell-Mann basis is computed by the model *)
 Definition ggm_threshold : nat := 12.
 Definition liouville_representation (is_ggm : bool) (U : Matc) (basis : list Matc) : list (list T) :=
+  if is_ggm && Nat.ltb ggm_threshold d && Nat.eqb (length basis) (d * d) then
+    let f := basis_is_ggm_flag basis in
+    let Lc := liouville_closed U basis in
+    let Lg := liouville_generic U basis in
+    let n := length basis in
+    build n (fun i => build n (fun j => oite Op (ogt Op f half) (rget Op Lc i j) (rget Op Lg i j)))
+  else liouville_generic U basis.
+(* the path switch before commit 63446ae (label only), kept for the refutation theorem *)
+Definition liouville_representation_prefix (is_ggm : bool) (U : Matc) (basis : list Matc) : list (list T) :=
   if is_ggm && Nat.ltb ggm_threshold d then liouville_closed U basis else liouville_generic U basis.
 
 (* leading (stack) axes are broadcast *)
@@ -101,17 +127,18 @@ Definition liouville_to_choi (S : list (list T)) (basis : list Matc) : Matc :=
   concat (build d (fun a => build d (fun c =>
     concat (build d (fun b => build d (fun e => choi_entry4 S basis a c b e)))))).
 
-(* -(atol or basis._atol): None and 0.0 both select the default eps*d^3, eps = finfo(complex).eps *)
-Definition eps_complex : T := odya Op 1 (-52).
-Definition basis_atol : T := omul Op eps_complex (omul Op (ofnat d) (omul Op (ofnat d) (ofnat d))).
-Definition eff_atol (atol : T) : T := oite Op (ogt Op (oabs Op atol) (o0 Op)) atol basis_atol.
+(* tol = atol or basis._atol*np.maximum(1, np.abs(D).max(axis=-1)): None and 0.0 both select the default *)
+Definition max1abs (D : list T) : T :=
+  fold_right (fun ev acc => let a := oabs Op ev in oite Op (ogt Op a acc) a acc) (o1 Op) D.
+Definition eff_atol (atol : T) (D : list T) : T :=
+  oite Op (ogt Op (oabs Op atol) (o0 Op)) atol (omul Op basis_atol (max1abs D)).
 
-(* (D >= -thr).all(axis=-1) as 1 / 0 *)
+(* (D >= -tol).all(axis=-1) as 1 / 0 *)
 Definition psd_flag (thr : T) (D : list T) : T :=
   fold_right (fun ev acc => oite Op (ogt Op (oneg Op thr) ev) (o0 Op) acc) (o1 Op) D.
 
 (* liouville_is_CP: D are the eigenvalues returned by nla.eigh(choi) (oracle, validated per case) *)
-Definition liouville_is_CP (atol : T) (D : list T) : T := psd_flag (eff_atol atol) D.
+Definition liouville_is_CP (atol : T) (D : list T) : T := psd_flag (eff_atol atol D) D.
 
 (* liouville_is_cCP: Omega[::d+1] = 1/sqrt(d); Omega = outer(Omega, Omega); Q = eye - Omega;
    D are the eigenvalues returned by nla.eigh(Q @ choi @ Q)                                      *)
@@ -123,7 +150,7 @@ Definition projQ : Matc :=
   mbuild (d * d) (d * d) (fun r c =>
     cofr Op (osub Op (if Nat.eqb r c then o1 Op else o0 Op) (omul Op (vget Op omega_vec r) (vget Op omega_vec c)))).
 Definition projected_choi (Ch : Matc) : Matc := mmul Op (d * d) (mmul Op (d * d) projQ Ch) projQ.
-Definition liouville_is_cCP (atol : T) (D : list T) : T := psd_flag (eff_atol atol) D.
+Definition liouville_is_cCP (atol : T) (D : list T) : T := psd_flag (eff_atol atol D) D.
 
 (* ---------------------------------------------------------------------------------------------
    The cached Liouville total propagator of a pulse (pulse_sequence.py).  Only the two slots that
